@@ -279,10 +279,18 @@ def known_findings():
         return json.load(f)
 
 
+_current_verdict = [None]
+
+
+def current_verdict():
+    return _current_verdict[0]
+
+
 class Verdict:
     """Collects what a check did; writes evidence; prints VIOLATION / KNOWN-FINDING lines."""
 
     def __init__(self, pid, tier, level):
+        _current_verdict[0] = self
         self.pid = pid
         self.tier = tier
         self.level = level
